@@ -1111,6 +1111,18 @@ def anchored_names():
   return _keep_cache
 
 
+def anchored_names_in(repo):
+  """anchored_names() plus the current names of anchors that were renamed in this tree."""
+  from . import _h_C as H
+  names = set(anchored_names())
+  for q in H.ANCHOR_ROLES:
+    if q not in repo.funcs:
+      fi = H.resolve_anchor(repo, q)
+      if fi is not None:
+        names.add(fi.name)
+  return names
+
+
 class View(object):
   """A set of behaviour-preserving transformations applied before a rule reads a function."""
   def __init__(self, name, steps=(), inline=False):
@@ -1152,7 +1164,7 @@ class VWorld(World):
     node = copy.deepcopy(fi.node)
     if v.inline:
       if self._inliner is None:
-        self._inliner = Inliner(self.repo, anchored_names())
+        self._inliner = Inliner(self.repo, anchored_names_in(self.repo))
       self._inliner.inline(node, fi)
     if v.canon:
       if "positional" in v.steps:
@@ -1176,7 +1188,14 @@ class VWorld(World):
 
   def fn(self, qualname):
     if qualname not in self._fns:
-      self._fns[qualname] = Fn(self, self._normalised(self.repo.func(qualname)))
+      fi = self.repo.funcs.get(qualname)
+      if fi is None:
+        # a private anchor that was renamed / moved is found by its role (see _h_C.ANCHOR_ROLES)
+        from . import _h_C as H
+        fi = H.resolve_anchor(self.repo, qualname)
+      if fi is None:
+        fi = self.repo.func(qualname)       # raises AnalysisError: anchor function vanished
+      self._fns[qualname] = Fn(self, self._normalised(fi))
     return self._fns[qualname]
 
   def fn_of(self, fi):
